@@ -35,7 +35,10 @@ ClassesOf(f) ==
     \* the NAME under which the file sits in the link directory: <step>.<8 characters>.link, where the
     \* directory scan accepts any 8 characters (the key-id prefix is text an attacker chooses, too)
     [] f = "filename"    -> {"prefix8", "eight_3byte", "four_ascii_four_3byte", "eight_2byte", "eight_4byte", "one_3byte_seven_ascii",
-                             "uppercase_prefix", "directory_named_like_a_link"}
+                             "uppercase_prefix", "directory_named_like_a_link",
+                             \* evidence = a sub-layout delegating the same step to the same key again, its
+                             \* sub-directory a symbolic link back to the link directory (must end in an error)
+                             "self_delegation_through_a_directory_link"}
     [] f = "expires"     -> {"ok", "garbage", "year0", "year9999", "year10000", "leap_second", "empty", "number", "past"}
     [] f = "keytable"    -> {"ok", "id_mismatch", "garbage_hex", "odd_hex", "not_pem", "truncated_pem", "unknown_type", "scheme_mismatch", "empty"}
     [] f = "step_name"   -> {"plain", "empty", "slash", "dotdot", "glob_open", "glob_star", "nonascii", "duplicate"}
